@@ -91,7 +91,14 @@ func cmdKConfig(args []string) error {
 		case "float":
 			v := float64(r.Intn(20000)-5000) / 100
 			text = strconv.FormatFloat(v, 'f', 2, 64)
-			return text, strconv.FormatFloat(v, 'g', -1, 64), text
+			plain := text
+			if v >= 0 && r.Intn(4) == 0 {
+				text = "0" + text // on the line: zero-padded decimal number (07.50, 012.00): still that number
+				if v < 10 {
+					text = "0" + text
+				}
+			}
+			return text, strconv.FormatFloat(v, 'g', -1, 64), plain
 		case "int":
 			if k.name == "ResultFileFormat" {
 				v := r.Intn(2)
@@ -99,6 +106,10 @@ func cmdKConfig(args []string) error {
 			}
 			v := r.Intn(3000) - 100
 			text = strconv.Itoa(v)
+			if v >= 0 && r.Intn(4) == 0 {
+				// on the line: zero-padded decimal number (010, 0360): still that number (the file is YAML and stays unpadded)
+				return fmt.Sprintf("%04d", v), text, text
+			}
 			return text, text, text
 		case "enum":
 			if k.name == "Dateformat" {
@@ -175,6 +186,36 @@ func cmdKConfig(args []string) error {
 		}
 		// keys that do not exist are ignored
 		argVals["NoSuchKey"+strconv.Itoa(id)] = "5"
+		// ... also those that look like existing ones: the beginning of a key, a key with something appended, a key in
+		// another spelling of its first letter; the line gives them a value of the kind of the key they resemble
+		isKey := map[string]bool{}
+		for _, k := range keys {
+			isKey[k.name] = true
+		}
+		for j := 0; j < 4; j++ {
+			k := keys[r.Intn(len(keys))]
+			var near string
+			switch r.Intn(4) {
+			case 0:
+				if len(k.name) > 4 {
+					near = k.name[:3+r.Intn(len(k.name)-3)]
+				}
+			case 1:
+				near = k.name + []string{"s", "2", "_", "Value"}[r.Intn(4)]
+			case 2:
+				near = strings.ToLower(k.name[:1]) + k.name[1:]
+			default:
+				near = k.yaml
+			}
+			if near == "" || isKey[near] {
+				continue
+			}
+			if _, used := argVals[near]; used {
+				continue
+			}
+			t, _, _ := randVal(r, k)
+			argVals[near] = t
+		}
 		argVals["project"] = "p"
 		hasFile := len(fileVals) > 0 || mode%2 == 0
 		if hasFile {
@@ -183,7 +224,16 @@ func cmdKConfig(args []string) error {
 		g := hermes.NewGlobalVarsMain()
 		g.Session = hermes.NewHermesSession()
 		hp := hermes.NewHermesFilePath(root, "p", "x", "", "")
-		cfg := hermes.VerifReadConfig(&g, argVals, &hp)
+		// a configuration reader that panics on a line of the stated domain gives no value at all: every key of the case
+		// is reported with the effective value "<panic>"
+		cfg, panicked := func() (c hermes.Config, p bool) {
+			defer func() {
+				if x := recover(); x != nil {
+					p = true
+				}
+			}()
+			return hermes.VerifReadConfig(&g, argVals, &hp), false
+		}()
 		cv := reflect.ValueOf(cfg)
 		// effective value of a key by the rule under test (line over file over default), evaluated by the harness
 		given := func(name string, def string) string {
@@ -197,6 +247,9 @@ func cmdKConfig(args []string) error {
 		}
 		for _, k := range keys {
 			e := map[string]interface{}{"ev": "cfg", "case": id, "key": k.name, "kind": k.kind, "def": canon(dv.Field(k.idx)), "eff": canon(cv.Field(k.idx))}
+			if panicked {
+				e["eff"] = "<panic>"
+			}
 			switch k.name {
 			case "ResultFileExt":
 				// documented default: csv for the csv style, RES otherwise - of the result style the run actually uses
